@@ -827,8 +827,10 @@ Definition chain_cmd (st : dstate) (cmd : tok) (args : list tok) : option (dstat
         match bytes_of_tok k, docref st r, parse_dec n with
         | Some did, Some od, Some seq =>
             let e := {| en_doc := Some (match od with Some d => d | None => empty_doc end); en_seq := seq |} in
-            if validate_did_genesis [(did, e)]
-            then Some (upd_chain st (with_did (d_chain st) (init_did [(did, e)] (c_did (d_chain st)))), [b "GD ok"])
+            (* the entry reaches the chain through the JSON genesis file: texts are coerced to UTF-8 on the way *)
+            let g := coerce_did_genesis [(did, e)] in
+            if validate_did_genesis g
+            then Some (upd_chain st (with_did (d_chain st) (init_did g (c_did (d_chain st)))), [b "GD ok"])
             else Some (st, [b "GD invalid"])
         | _, _, _ => Some (st, bad)
         end
